@@ -606,3 +606,19 @@ Example C04_progress_nonvacuous :
   valid_op w (OSort 0 0 [] false false) = true /\
   valid_op (snd (step w (OAdd 0 0 dB None None BNone))) (OSort 0 0 [(1, Some [3%Z])] false false) = false.
 Proof. vm_compute. repeat split. Qed.
+
+(* ====================================================================================== *)
+(* Audit, cross-cutting "step vs step_chk": the effect theorems above have the premise [step w o = (Ok r, w')]; the
+   correspondence evaluates the guarded [CaseMut.step_chk].  A successful guarded step is a successful step, so each
+   of them applies verbatim to what the cases run; a refused guarded step is the machine's refusal or the
+   stale-reference answer with the world untouched. *)
+From NT Require Import CaseMut CaseMutFacts.
+
+Theorem C04_step_chk_ok : forall w o r w', step_chk w o = (Ok r, w') -> step w o = (Ok r, w') /\ op_live w o = true.
+Proof. exact step_chk_ok. Qed.
+Print Assumptions C04_step_chk_ok.
+
+Theorem C04_step_chk_err : forall w o e w', step_chk w o = (Err e, w') ->
+  step w o = (Err e, w') \/ (op_live w o = false /\ e = EModel /\ w' = w).
+Proof. exact step_chk_err. Qed.
+Print Assumptions C04_step_chk_err.
